@@ -54,7 +54,7 @@ def gen_txout(rng, cls='bitcoin.core:CTxOut'):
 
 def gen_wstack(rng):
     n = rng.choice([0, 0, 1, 2, 3])
-    items = [_b(rng, rng.choice([0, 0, 1, 2, 33, 72])) for _ in range(n)]
+    items = [_b(rng, rng.choice([0, 0, 1, 2, 33, 72, 72, 252, 253, 520, 521, 1000])) for _ in range(n)]
     return {'__obj__': 'bitcoin.core.script:CScriptWitness', 'args': [{'__tuple__': items}]}
 
 
